@@ -680,6 +680,9 @@ class ListK(Kind):
     def build(self, ctx, mk):
         return PyList([k.build(ctx, lambda s, so, i=i: mk("[%d]%s" % (i, s), so)) for i, k in enumerate(self.kinds)])
 
+    def __repr__(self):
+        return "list-of-%d" % len(self.kinds)
+
     def sort(self):
         raise EngineLimit("ListK has no single sort")
 
@@ -691,3 +694,26 @@ def bind_owner(obj: "Obj"):
             v.owner = obj
         if isinstance(v, SymSeq):
             v.owned = True
+
+
+class Recorder:
+    """An abstract callable received from the environment (e.g. a print handler): every call is recorded
+    (positional arguments) in `calls`; it returns None and raises nothing (assumed for handlers)."""
+
+    def __init__(self, name="callable"):
+        self.name = name
+        self.calls = PyList([])
+
+    def __repr__(self):
+        return "<Recorder %s %d calls>" % (self.name, len(self.calls.items))
+
+
+class RecorderK(Kind):
+    def __init__(self, name="callable"):
+        self.name = name
+
+    def build(self, ctx, mk):
+        return Recorder(self.name)
+
+    def sort(self):
+        raise EngineLimit("RecorderK has no single sort")
